@@ -277,6 +277,23 @@ impl AcquisitionLedger {
         }
     }
 
+    /// Rescale all lots after a share split (factor > 1) or consolidation (factor < 1).
+    ///
+    /// Share counts are multiplied by `factor` and the unit price divided by it, so each
+    /// lot's total cost is unchanged.
+    pub fn rescale(&mut self, factor: Decimal) {
+        if factor == Decimal::ZERO {
+            return;
+        }
+        for lot in &mut self.lots {
+            lot.original_amount *= factor;
+            lot.consumed *= factor;
+            lot.reserved *= factor;
+            lot.in_pool *= factor;
+            lot.price /= factor;
+        }
+    }
+
     /// Get all lots.
     pub fn lots(&self) -> &[AcquisitionLot] {
         &self.lots
